@@ -27,7 +27,7 @@ def gen_case(rng):
             cid += 1
             invs.append(cid)
         init = None
-        if i == 0 or rng.random() < 0.75:
+        if rng.random() < (0.8 if i == 0 else 0.75):
             acts = []
             for _ in range(rng.choice([0, 1, 1, 2])):
                 stage += 1
@@ -48,7 +48,21 @@ def gen_case(rng):
     for c in range(1, cid + 1):
         r = rng.random()
         need.append([c, 0 if r < 0.2 else (rng.randint(0, stage) if r < 0.85 else stage + 1)])
-    return {"chain": chain, "need": need, "k": rng.randrange(n)}
+    case = {"chain": chain, "need": need, "k": rng.randrange(n)}
+    if rng.random() < 0.3:
+        # one class defines __new__(cls, x=None); the instance is then created with an argument (every __init__ accepts it)
+        # (not where the library wraps that __new__ itself - a class with invariants and no __init__ at or below it -
+        #  while a class further down the chain has an __init__: the recorded finding D4b, exercised by the elab cluster)
+        def has_init_upto(j):
+            return any(chain[i]["init"] is not None for i in range(j + 1))
+
+        def has_invs_upto(j):
+            return any(chain[i]["invs"] for i in range(j + 1))
+        ok = [j for j in range(n)
+              if has_init_upto(j) or not has_invs_upto(j) or not any(cd["init"] is not None for cd in chain)]
+        if ok:
+            case["new_at"] = rng.choice(ok)
+    return case
 
 
 def cq_case(c):
@@ -80,17 +94,19 @@ def script_of(c):
         for cid in reversed(cd["invs"]):
             L.append("@icontract.invariant(lambda self: getattr(self, '_stage', 0) >= need[%d])" % cid)
         L.append("class L%d(%s):" % (i, "L%d" % (i - 1) if i else "icontract.DBC"))
+        if c.get("new_at") == i:
+            L.append("    def __new__(cls, x=None): return super().__new__(cls)")
         if cd["init"] is None:
             L.append("    pass")
         else:
-            L.append("    def __init__(self):")
+            L.append("    def __init__(self, x=None):")
             for a in cd["init"] or [["pass"]]:
                 L.append("        super().__init__()" if a[0] == "super" else
                          ("        pass" if a[0] == "pass" else "        object.__setattr__(self, '_stage', %d)" % a[1]))
             if not cd["init"]:
                 L.append("        pass")
         L.append("")
-    L.append("L%d()" % c["k"])
+    L.append("L%d(%s)" % (c["k"], "7" if c.get("new_at") is not None and c["new_at"] <= c["k"] else ""))
     return "\n".join(L)
 
 
